@@ -31,6 +31,7 @@ MUTANTS = [
     {"id": "c09-str-no-suffix", "expect": "fire", "edits": [(F, '        return "".join(f"{p.c_prefix}{p.text}{p.c_suffix}" for p in self.chunks)', '        return "".join(f"{p.c_prefix}{p.text}" for p in self.chunks) + (self.chunks[-1].c_suffix if self.chunks else "")')]},
     {"id": "c09-color-table", "expect": "fire", "edits": [(F, """        'CYAN'   : "6",""", """        'CYAN'   : "5",""")]},
     {"id": "c09-256-semicolon-form-unstripped", "expect": "fire", "edits": [(F, 'return f"{fg_bg_id}8:5:{color}"', 'return f"{fg_bg_id}8/5/{color}"')]},
+    {"id": "c09-lru-cache-validator", "expect": "fire", "edits": [(F, "import re\nfrom dataclasses import dataclass\n", "import re\nfrom functools import lru_cache\nfrom dataclasses import dataclass\n"), (F, "    @classmethod\n    def _make_seq_element(cls, color, is_bg=False):", "    @classmethod\n    @lru_cache(maxsize=None)\n    def _make_seq_element(cls, color, is_bg=False):")]},
     # neutral
     {"id": "c09-n-raw-pattern", "expect": "silent", "edits": [(F, 're.compile("\\033\\\\[[;:\\\\d]*m")', 're.compile(r"\\x1b\\[[0-9;:]*m")')]},
     {"id": "c09-n-horner-cube", "expect": "silent", "edits": [(F, "color = 16 + r * 36 + g * 6 + b", "color = 16 + (r * 6 + g) * 6 + b")]},
